@@ -2,9 +2,8 @@
 """IPCServer keeps `buffer`/`message_size` across accepted connections. Bytes a client sends after its request
 (a second frame, or a partial one) are parsed as the beginning of the NEXT client's request: the next client
 gets the answer to the stale frame (or the daemon dies on the mis-framed bytes).
-keys: later-request-affected:pipelined:status-got-foreign-response,
-      later-request-affected:pipelined:status-got-error-reply:unrecognized-command-reply,
-      daemon-died:on-next-connection:OSError@dmypy_util.py:receive
+keys: later-request-affected:pipelined:next-request-disturbed   (a complete second frame was left behind)
+      daemon-died:on-next-connection:OSError@dmypy_util.py:receive (a partial frame was left behind: run with argument "partial")
 
 Standalone: /venv/bin/python leftover_bytes_reach_next_client.py   (VERIF_REPO=<dir> to test another checkout)
 exit 1 = defect present, 0 = absent, 2 = could not run."""
@@ -110,13 +109,15 @@ def cleanup():
 def main():
     start()
     s = connect()
-    s.sendall(request(command="status", is_tty=False, terminal_width=80)
-              + request(command="frobnicate", is_tty=False, terminal_width=80))
+    extra = b"\x00\x00" if sys.argv[1:] == ["partial"] else request(command="frobnicate", is_tty=False, terminal_width=80)
+    s.sendall(request(command="status", is_tty=False, terminal_width=80) + extra)
     read_frames(s)
     s.close()
     rc, out = dmypy("status")
     print("well-formed `dmypy status` of the next client ->", rc, out.strip()[:300])
     if exited(1):
+        print("daemon exited on the next client's connection")
+        print(log())
         return 1
     return 0 if rc == 0 and "Daemon is up and running" in out else 1
 
